@@ -420,6 +420,29 @@ func (e *Engine) oblige(st *State, safe *Term, kind string, pos token.Pos, expr 
 	st.addPC(safe)
 }
 
+// monitor: like oblige, but the violating executions continue natively (no panic), so the
+// path is not constrained by the monitored condition.
+func (e *Engine) monitor(st *State, safe *Term, kind string, pos token.Pos, expr string) {
+	if e.inInit {
+		return
+	}
+	e.oblig++
+	if safe.IsTrue() || st.pcSet[safe] {
+		e.disch++
+		return
+	}
+	fn, _ := e.curFn(st)
+	viol := e.tb.Not(safe)
+	switch e.sat(st, viol) {
+	case "unsat":
+		e.disch++
+	case "sat":
+		e.report(st, kind, fn, expr, pos, viol, "sat")
+	default:
+		e.inconc = append(e.inconc, fmt.Sprintf("%s: solver unknown for %s in %s (%s)", e.harness, kind, fn, expr))
+	}
+}
+
 // ---------------------------------------------------------------- running
 
 type RunResult struct {
